@@ -8,7 +8,11 @@ RULE = ("case 'seq' = (matrix with 1..5 frames, 0..4 signals each, sender/receiv
         "ECUs referenced but not listed and some listed but not referenced, frame receiver lists up to date, optional free signals; "
         "a sequence of 1..8 (thorough: ..30) operations rename (new name unused) / delete by instance / delete by glob pattern / "
         "update ECU list / remove obsolete / add+delete signal receiver by glob); the state after every operation is observed. "
-        "Every third listed ECU has a comment, every third an attribute. case 'glob' = (pattern, name) for the glob matcher itself. Non-trivial = distinct sequence in which at least one "
+        "Every third listed ECU has a comment, every third an attribute. A second stream of 'seq' cases draws the ECU names from a pool of "
+        "RELATED names built from two stems (one name contained in another as prefix / suffix / infix, names that differ only in letter "
+        "case, doubled and shortened names), takes the new names of renames from the same family (a case variant, an extension or a "
+        "shortening of a name in use - still not in use as an exact name) and derives the deletion patterns from the names. "
+        "case 'glob' = (pattern, name) for the glob matcher itself, also on the related names. Non-trivial = distinct sequence in which at least one "
         "operation changed the matrix.")
 PARTIAL = ["Ecu objects are modelled by their names (comment and attributes of an ECU play no role in reference maintenance)"]
 ASSUMPTIONS = ["reference lists are duplicate-free and frame receiver lists up to date initially (the state the readers produce)",
@@ -28,7 +32,42 @@ def dedup(l):
     return out
 
 
-def gen_matrix(rng):
+STEMS = ["GW", "Front", "Body", "E1", "Test", "Diag", "Bcm", "X", "Door_L", "abs"]
+
+
+def variants(s, t):
+    """names related to the stem s (and to a second stem t): containment and letter case"""
+    return [s, s.upper(), s.lower(), s.swapcase(), s.capitalize(), s + "_" + t, t + "_" + s, s + t, s + "2", s + "12", s + "_",
+            "_" + s, s + s, s[:-1], s[1:], s[:1], "My" + s + "x"]
+
+
+def related_pool(rng):
+    """10 names of which most are contained in another one or equal another one up to letter case"""
+    a, b = rng.sample(STEMS, 2)
+    cands = dedup([v for v in variants(a, b) + variants(b, a) if v])
+    return rng.sample(cands, min(10, len(cands)))
+
+
+def related_patterns(rng, pool):
+    """deletion patterns derived from the names: exact prefix / suffix / infix, one letter open, letter of either case"""
+    out = []
+    for _ in range(6):
+        n = rng.choice(pool)
+        k = rng.randint(1, len(n))
+        c = n[0]
+        out.append(rng.choice([n[:k] + "*", "*" + n[-k:], "*" + n[k // 2:k] + "*", n[:k - 1] + "?" + n[k:], n[:k - 1] + "?" + n[k:] + "*",
+                               "[" + c.lower() + c.upper() + "]" + n[1:], "[" + c.lower() + c.upper() + "]" + n[1:k] + "*",
+                               "[!" + c + "]" + n[1:], n, n + "?", n.lower(), n.upper()]))
+    return out
+
+
+def derived_name(rng, name):
+    """a name of the same family as `name`"""
+    return rng.choice([name.upper(), name.lower(), name.swapcase(), name.capitalize(), name + "_Front", name + "2", name + "_",
+                       "_" + name, name + name, name[:-1], name[1:], name[:1], name[:len(name) // 2 + 1], "My" + name])
+
+
+def gen_matrix(rng, POOL=POOL):
     listed = [e for e in POOL if rng.random() < 0.6]
     rng.shuffle(listed)
     frames = []
@@ -43,17 +82,36 @@ def gen_matrix(rng):
     return {"ecus": listed, "frames": frames, "free": free}
 
 
+def case_pool(m):
+    """the names a case is about: its explicit pool (related names) or the fixed pool"""
+    return m.get("pool") or POOL
+
+
 def gen_ops(rng, m, n):
     ops = []
     fresh = 0
-    names_in_use = set(POOL)
+    related = bool(m.get("pool"))
+    POOL = case_pool(m)
+    PATTERNS = globals()["PATTERNS"]
+    if related:
+        PATTERNS = PATTERNS + related_patterns(rng, POOL) * 2
+    names_in_use = set(POOL) | set(m["ecus"]) | {r for f in m["frames"] for r in f[1] + f[2]} | {r for s in m.get("free", []) for r in s[1]}
     for _ in range(n):
         k = rng.random()
         if k < 0.3:
-            fresh += 1
-            new = "N%d" % fresh
+            old = rng.choice(sorted(names_in_use))
+            new = None
+            if related and rng.random() < 0.8:
+                # a new name of the same family as a name in use (of the renamed ECU or of another one); "not yet in use"
+                # is meant literally: no ECU and no reference has exactly this name
+                new = derived_name(rng, rng.choice(sorted(names_in_use)))
+                if not new or new in names_in_use:
+                    new = None
+            if new is None:
+                fresh += 1
+                new = "N%d" % fresh
             names_in_use.add(new)
-            ops.append(["rename", rng.choice(sorted(names_in_use)), new])
+            ops.append(["rename", old, new])
         elif k < 0.45:
             ops.append(["delInst", rng.choice(sorted(names_in_use))])
         elif k < 0.62:
@@ -79,6 +137,15 @@ def gen(rng, tier, shard, nshards):
         p = rng.choice(PATTERNS + ["[", "a[", "[]a]", "[!]]", "a*b*c", "**", "?*", "[a-", "x[0-9]y", "[-a]"])
         n = rng.choice(POOL + ["", "a", "]", "[", "abc", "axbxc", "x5y", "-", "Testo"])
         yield {"op": "glob", "c": [p, n]}
+    # related names: one ECU name contained in another, names equal up to letter case; new names of the same family
+    for _ in range(total // 2):
+        pool = related_pool(rng)
+        m = gen_matrix(rng, pool)
+        m["pool"] = pool
+        yield {"op": "seq", "c": {"m": m, "ops": gen_ops(rng, m, rng.randint(1, maxlen))}}
+    for _ in range(total // 8):
+        pool = related_pool(rng)
+        yield {"op": "glob", "c": [rng.choice(related_patterns(rng, pool)), rng.choice(pool + [derived_name(rng, rng.choice(pool))])]}
 
 
 def neighbours(case, rng, shard, nshards):
@@ -151,9 +218,20 @@ def features(case, impl):
     if case["op"] == "seq":
         m = case["c"]["m"]
         prev = m
+        yield "names=" + ("related (containment / letter case)" if m.get("pool") else "fixed pool")
         for op, st in zip(case["c"]["ops"], impl["states"]):
             changed = (st["ecus"] != prev["ecus"]) or (st["frames"] != prev["frames"])
             yield "%s:%s" % (op[0], "changed" if changed else "noop")
+            present = set(prev["ecus"]) | {r for f in prev["frames"] for r in f[1] + f[2]}
+            if op[0] == "rename" and op[1] in prev["ecus"]:
+                if any(x != op[2] and x.lower() == op[2].lower() for x in present):
+                    yield "rename of a listed ECU: new name equals a present name up to letter case"
+                if any(x != op[2] and (x in op[2] or op[2] in x) for x in present):
+                    yield "rename of a listed ECU: new name contains / is contained in a present name"
+            if op[0] in ("delInst", "delGlob") and changed:
+                gone = [e for e in prev["ecus"] if e not in st["ecus"]]
+                if any(x not in gone and any(x in g or x.lower() == g.lower() for g in gone) for x in present):
+                    yield "%s: a deleted name contains (or equals up to case) a name that stays" % op[0]
             prev = st
         refs = {r for f in m["frames"] for r in f[1] + f[2]}
         if refs - set(m["ecus"]):
